@@ -3,7 +3,7 @@ import EdpVerif.Lemmas.DecModern
 import EdpVerif.Lemmas.DecCtx
 import EdpVerif.Lemmas.DecNoTrailing
 import EdpVerif.Impl.TableTie
-import EdpVerif.Generated.Misc
+import EdpVerif.Generated.MiscC13
 import EdpVerif.Lemmas.Convert
 /-
 C13 — the zero-copy decoder agrees with the owned decoder.
